@@ -27,6 +27,9 @@ typedef struct ostream_xfrm_t {
 
 	size_t inbuf_used;
 
+	/* data went through the compressor since it was last finished */
+	bool need_finish;
+
 	sqfs_u8 inbuf[BUFSZ];
 	sqfs_u8 outbuf[BUFSZ];
 } ostream_xfrm_t;
@@ -69,6 +72,7 @@ static int flush_inbuf(ostream_xfrm_t *xfrm, bool finish)
 		xfrm->inbuf_used = 0;
 	}
 
+	xfrm->need_finish = !finish;
 	return 0;
 }
 
@@ -107,7 +111,7 @@ static int xfrm_flush(sqfs_ostream_t *strm)
 {
 	ostream_xfrm_t *xfrm = (ostream_xfrm_t *)strm;
 
-	if (xfrm->inbuf_used > 0) {
+	if (xfrm->inbuf_used > 0 || xfrm->need_finish) {
 		int ret = flush_inbuf(xfrm, true);
 		if (ret)
 			return ret;
